@@ -273,4 +273,45 @@ theorem Src_generate_topology (subnets : List Nat) (h4 : 4 ≤ subnets.length) :
           false_or, Bool.and_eq_false_iff, decide_eq_false_iff_not]
         omega
 
+
+/-! ### the vulnerability predicates of `_ensure_host_vulnerability`
+
+`_host_is_vulnerable_to_exploit`, `_host_is_vulnerable_to_privesc` and `_host_is_vulnerable` translated from the source
+are the model's `vulnE`, `vulnPE`, `hostVulnerable` — the predicate the invariant of C15 / C16 is stated with ("every
+sensitive host is vulnerable at root level, every subnet holds a vulnerable host"), for escalation definitions that
+name a process (the generator's always do). -/
+
+theorem osPart (l : List Bool) (o : Option Nat) :
+    (o.isNone || PyRt.flagAt l o) = (match o with | none => true | some i => l.getD i false) := by
+  cases o <;> simp [PyRt.flagAt]
+
+theorem Src_vuln_exploit (h : HostDef) (e : ExploitDef) :
+    SrcGen.ScenarioGenerator._host_is_vulnerable_to_exploit h e = vulnE h e := by
+  unfold SrcGen.ScenarioGenerator._host_is_vulnerable_to_exploit vulnE runsOsH
+  simp only [ite_not_false, osPart]
+  rfl
+
+theorem Src_vuln_privesc (h : HostDef) (pe : PrivescDef) (hp : pe.proc.isSome = true) :
+    SrcGen.ScenarioGenerator._host_is_vulnerable_to_privesc h pe = vulnPE h pe := by
+  unfold SrcGen.ScenarioGenerator._host_is_vulnerable_to_privesc vulnPE runsOsH
+  simp only [ite_not_false, osPart]
+  cases hq : pe.proc with
+  | none => rw [hq] at hp; simp at hp
+  | some pr => rfl
+
+theorem Src_host_is_vulnerable (es : List ExploitDef) (ps : List PrivescDef) (h : HostDef) (lvl : Nat)
+    (hps : ∀ pe ∈ ps, pe.proc.isSome = true) :
+    SrcGen.ScenarioGenerator._host_is_vulnerable es ps h lvl = hostVulnerable es ps h lvl := by
+  unfold SrcGen.ScenarioGenerator._host_is_vulnerable hostVulnerable
+  have hin : PyRt.forEach (β := Bool) ps () (fun pe_def _ =>
+      if SrcGen.ScenarioGenerator._host_is_vulnerable_to_privesc h pe_def = true then PyRt.Ctl.ret true else PyRt.Ctl.next ()) =
+      if ps.any (vulnPE h) then .ret true else .next () := by
+    rw [forEach_find ps _ true]
+    rw [any_congr_mem ps _ (vulnPE h) (fun pe hpe => Src_vuln_privesc h pe (hps pe hpe))]
+  simp only [hin, Src_vuln_exploit]
+  rw [forEach_congr es _ (fun e _ => if (vulnE h e && (decide (lvl ≤ e.access) || ps.any (vulnPE h))) = true then .ret true else .next ()) ()
+    (fun e _ t => by
+      cases vulnE h e <;> cases hd : decide (lvl ≤ e.access) <;> cases ps.any (vulnPE h) <;> simp_all)]
+  rw [forEach_find es _ true]
+  cases es.any (fun e => vulnE h e && (decide (lvl ≤ e.access) || ps.any (vulnPE h))) <;> rfl
 end NASim
